@@ -3,6 +3,7 @@ import Vata.Generated.Tables
 import Vata.InclUpBdd
 import Vata.BddIsect
 import Vata.BddAbsTD
+import Driver.BddShareChk
 /-! # Driver side of the BDD-encoding checks: `bddincl`, `bddinclall` (C07), `bddh`, `bddtd` (C08) -/
 open Vata
 
@@ -221,8 +222,16 @@ partial def go (enc : String) (steps res : List String) (k : Nat) (pool : List (
 def checkHist (args res : List String) : Except String (List String × String) := do
   let enc := args[0]!
   -- steps are numbered from 1 in the harness output (argument 0 is the encoding)
+  -- the exact precondition of the in-place operations on shared tables (`Vata/BddShare.lean`: clauses T, A, H, S, L – each proved
+  -- necessary by a kernel-checked history, together sufficient: `C08_sharing_history`, `C08_sharing_isolation`), evaluated on states
+  -- rebuilt from the dumps: a history outside it is not judged (the generator's table families are only a heuristic for it)
+  match BddShareChk.preconditionExact enc (args.drop 1) res with
+  | .error m => throw (if m.startsWith "precondition" then m else "precondition (sharing model): " ++ m)
+  | .ok _ => pure ()
   let (f, tags) ← go enc (args.drop 1) res 1 [] [] []
-  pure (f, s!"enc={enc} " ++ " ".intercalate tags)
+  -- the sharing model predicts the dump of EVERY entry after every step
+  let (fs, tg) ← BddShareChk.check args res
+  pure (f ++ (if f.isEmpty then fs.map (fun x => if x.startsWith "mismatch" then x else "mismatch " ++ x) else []), s!"enc={enc} " ++ " ".intercalate tags ++ " " ++ tg)
 
 def checkToTd (args res : List String) : Except String (List String × String) := do
   let A ← getE (args[0]? >>= parseTA?) "bad A"
